@@ -26,7 +26,8 @@ CONSTANTS MaxArr,       \* number of arrays that may be allocated
           SmallCap,     \* smallBufferSize (64 in the code; small here)
           PayloadsM,    \* payloads written
           MaxOpsM,
-          DefectM       \* "none" | "accessor_in_place" | "take_keeps_array" | "string_aliases" | "nested_abandon" : vacuity controls
+          DefectM       \* "none" | "accessor_in_place" | "take_keeps_array" | "string_aliases" | "nested_abandon" |
+                        \* "observe_while_lent" : vacuity controls
 
 \* loan: the Buffer struct as a nested printer holds it while SafePrinter.Print/Printf runs (np.buf = p.buf: a struct
 \* COPY that shares the array), <<>> when the buffer is not lent; nst: the value-level state of that nested buffer
@@ -178,10 +179,20 @@ DoAbandon == /\ DefectM = "nested_abandon"
              /\ nops < MaxOpsM /\ nops' = nops + 1 /\ loan # <<>>
              /\ loan' = <<>> /\ UNCHANGED <<heap, b, out, st, nst>>
 
+\* The discipline that makes the loan sound: while the array is lent, nobody uses the lender's (stale) struct.  The
+\* builder's Print/Printf keep it by construction (they format into a printer of their own and append the finished
+\* text afterwards), so the builder may be among its own operands.  DefectM = "observe_while_lent" is a builder that
+\* prints in place instead: an operand that is the builder itself calls an accessor on a COPY OF THE STALE STRUCT, whose
+\* finalize appends the closing marker at the stale length -- on top of what the borrower wrote there.
+DoObserveLent == /\ DefectM = "observe_while_lent"
+                 /\ nops < MaxOpsM /\ nops' = nops + 1 /\ loan # <<>> /\ Enough(heap)
+                 /\ LET r == FinalizeM(heap, b) IN heap' = r[1]
+                 /\ UNCHANGED <<b, out, st, loan, nst>>
+
 NextM == \/ \E p \in PayloadsM : DoWrite(p)
          \/ \E m \in Modes : DoSetMode(m)
          \/ DoAccessor \/ DoTake \/ DoReset
-         \/ DoLend \/ DoHandBack \/ DoAbandon
+         \/ DoLend \/ DoHandBack \/ DoAbandon \/ DoObserveLent
          \/ \E p \in PayloadsM : DoNestedWrite(p)
          \/ \E m \in Modes : DoNestedSetMode(m)
 SpecM == InitM /\ [][NextM]_varsM
